@@ -988,7 +988,7 @@ func rulesC03Ante(w *World, o *Out, fl *Flow, ah *ssa.Function) {
 				"an exit out of the per-message loop body reaches the next handler: the messages after this one are never verified")
 		}
 	}
-	o.Count("C03.R2 exits out of the per-message loop body", nExit, 2)
+	o.Count("C03.R2 exits out of the per-message loop body", nExit, 1)
 	// (f) the messages verified include every message wrapped in an authz MsgExec at any depth: the function
 	// that opens the envelopes hands what it finds to itself, or walks a work list whose bound is re-read
 	nOpen := 0
